@@ -526,11 +526,10 @@ func RunHistory(st *PState, pc *PCase, obs PObserver) (class, msg string, at int
 			st.Fed = append(st.Fed, ev.Given[:ev.N]...)
 			st.cursor += int(ev.N)
 		case "readfrom":
+			// the bytes the reader handed out are what was delivered; a
+			// wrong count is C15's business, lost bytes show up in the blocks
 			st.Fed = append(st.Fed, ev.Reader.handed...)
 			st.cursor += len(ev.Reader.handed)
-			if ev.N != int64(len(ev.Reader.handed)) {
-				ev.Desync = "readfrom count differs from bytes handed out"
-			}
 		case "parse":
 			st.Parses++
 			if ev.Err != nil {
@@ -614,7 +613,7 @@ type HWeights struct {
 
 // DefaultWeights is the mix used by the round-trip style properties.
 var DefaultWeights = HWeights{Write: 18, ReadFrom: 10, Parse: 30, ParseNTL: 12,
-	ParseNil: 0, Shrink: 12, Reset: 1, ResetData: 2, Probe: 0}
+	ParseNil: 0, Shrink: 12, Reset: 1, ResetData: 2, Probe: 0, Faults: true}
 
 func genSize(r *rand.Rand) (a, b int) {
 	switch r.Intn(10) {
